@@ -266,6 +266,9 @@ def _c15():
     out += ["https://www-example-com.cdn.ampproject.org/c/s/www.example.com/a.html", "https://cdn.ampproject.org/v/s/example.com/x?amp_js_v=0.1",
             "https://cdn.ampproject.org/c/", "https://cdn.ampproject.org/c/s/", "http://bc.marfeelcache.com/amp/www.example.com/a", "http://bc.marfeel.com/www.example.com/b?u=/x",
             "http://bc.marfeel.com/", "https://a.cdn.ampproject.org/c/s/b.cdn.ampproject.org/c/s/c.com/x"]
+    # a cache URL with an upper / mixed-case host (the patterns are case-insensitive), alone and as the target of a first hop
+    out += ["http://X-COM.CDN.AMPPROJECT.ORG/c/s/y.com/p", "http://a.com/r?url=" + quote("http://X-COM.CDN.AMPPROJECT.ORG/c/s/y.com/p", safe=""),
+            "http://a.com/r?u=" + quote("HTTP://BC.Marfeel.COM/www.example.com/b", safe="")]
     seen = []
     for s in out:
         if s not in seen:
